@@ -25,6 +25,7 @@ def run(chk, F):
     chk.guard("fallback-order", "Resolver::lookup", lambda: c07.family(chk, F, "Resolver::lookup", "loader::load::Resolver::lookup_exact", "loader::load::Resolver::lookup_with_prefix", "loader::load::Resolver::lookup", {}))
     chk.guard("definitions-not-overwritten", "load_defs", lambda: L.definitions_precedence(chk, F))
     chk.guard("unique-names", "data", lambda: datafiles.unique_names(chk))
+    chk.guard("categories-declared-consistently", "data", lambda: datafiles.categories_declared_once(chk))
     chk.guard("references-resolve", "data", lambda: datafiles.reference_lint(chk))
     chk.guard("overlay-does-not-rebind", "data", lambda: datafiles.overlay_rebinding(chk))
     chk.guard("declared-base-units", "data", lambda: datafiles.declared_base_units(chk))
